@@ -231,17 +231,19 @@ fn random_survivors(rng: &mut StdRng, journal: &[JOp], s: usize, p: usize) -> Ve
 pub fn record(args: &Args) {
     let seed = args.opt_u64("seed", 1);
     let runs = args.opt_u64("runs", 4);
+    let first = args.opt_u64("first-run", 0);
     let ops = args.opt_u64("ops", 10);
     let len = args.opt_u64("len", 14);
     let subsets = args.opt_u64("subsets", 2);
+    let exhaustive = args.opt_u64("exhaustive", 0);
     let out = args.opt("out").expect("--out").to_string();
     let mut tw = TraceWriter::create(&out);
     let mut sum = Summary::new("storecrash-record");
     let rt = tokio::runtime::Builder::new_current_thread().enable_all().build().unwrap();
     h_common::QUIET_ALL.store(true, std::sync::atomic::Ordering::Relaxed);
     rt.block_on(async {
-        for run in 0..runs {
-            one_history(seed, run, ops, len, subsets, &mut tw, &mut sum).await;
+        for run in first..first + runs {
+            one_history(seed, run, ops, len, subsets, exhaustive, &mut tw, &mut sum).await;
         }
     });
     let n = tw.finish();
@@ -250,7 +252,7 @@ pub fn record(args: &Args) {
     sum.write(args.opt("summary").unwrap_or("/dev/stdout"));
 }
 
-async fn one_history(seed: u64, run: u64, ops: u64, len: u64, subsets: u64, tw: &mut TraceWriter, sum: &mut Summary) {
+async fn one_history(seed: u64, run: u64, ops: u64, len: u64, subsets: u64, exhaustive: u64, tw: &mut TraceWriter, sum: &mut Summary) {
     let mut rng = StdRng::seed_from_u64(seed.wrapping_mul(1_000_003).wrapping_add(run));
     let base = (Time::now() - Duration::from_secs(1_000_000)).unwrap();
     let mut it = Intern { base_secs: base.unix_timestamp(), ..Default::default() };
@@ -328,6 +330,8 @@ async fn one_history(seed: u64, run: u64, ops: u64, len: u64, subsets: u64, tw: 
     // ---- crash points ----
     let journal = be.journal();
     sum.add("journal_entries", (journal.len() - p0) as u64);
+    sum.add("full_syncs", journal[p0..].iter().filter(|j| matches!(j, JOp::Sync(false))).count() as u64);
+    sum.add("eventual_syncs", journal.iter().filter(|j| matches!(j, JOp::Sync(true))).count() as u64);
     let mut synced_img: Vec<u8> = vec![];
     let mut synced_upto = 0usize; // journal[..synced_upto] applied to synced_img
     let mut cache: HashMap<(usize, usize), Value> = HashMap::new(); // (s, p) with all of s..p kept -> recovered
@@ -342,10 +346,22 @@ async fn one_history(seed: u64, run: u64, ops: u64, len: u64, subsets: u64, tw: 
         let unsynced: Vec<usize> = (s..p).filter(|i| !matches!(journal[*i], JOp::Sync(_))).collect();
         let changing = infl && hist[acked].st != hist[acked + 1].st;
         let mut images: Vec<(&str, Vec<usize>)> = vec![("synced", vec![]), ("all", unsynced.clone())];
-        if unsynced.len() >= 2 {
+        let barriers = (s..p).any(|i| matches!(journal[i], JOp::Sync(true)));
+        let k = unsynced.len();
+        if k >= 2 && !barriers && k as u64 <= exhaustive && unsynced[k - 1] == p - 1 {
+            // every survivor set that contains the newest write (the others were images of earlier
+            // points), except the full set (= "all")
+            for m in 0..(1u64 << (k - 1)) - 1 {
+                let mut keep: Vec<usize> = (0..k - 1).filter(|b| m >> b & 1 == 1).map(|b| unsynced[b]).collect();
+                keep.push(unsynced[k - 1]);
+                images.push(("subset", keep));
+            }
+            sum.add("points_with_all_subsets", 1);
+        } else if k >= 2 {
             for _ in 0..subsets {
                 images.push(("subset", random_survivors(&mut rng, &journal, s, p)));
             }
+            sum.add("points_with_sampled_subsets", 1);
         }
         for (mode, keep) in images {
             // identical images (nothing unsynced kept / everything kept) are recovered once
